@@ -659,11 +659,13 @@ def parse_vc(path):
                     fn['loops'][int(s2.split()[1])] = block('#end')
                 elif s2.startswith('#closure '):
                     n_ = int(s2.split()[1])
-                    c = {'param': None, 'ret': None, 'spec': ''}
+                    c = {'param': None, 'ret': None, 'spec': '', 'match': None}
                     body = block('#end')
                     for cl in body.split('\n'):
                         cs = cl.strip()
-                        if cs.startswith('param '):
+                        if cs.startswith('match '):
+                            c['match'] = cs[6:].strip().strip('/')
+                        elif cs.startswith('param '):
                             c['param'] = cs[6:].strip()
                         elif cs.startswith('ret '):
                             c['ret'] = cs[4:].strip()
@@ -768,8 +770,17 @@ def extract_fn(repo, spec, features):
         # written: any edit inside it makes the unit UNDECIDED (never an alarm, never a silent pass)
         have_sha = hashlib.sha256(norm(T[a:e]).encode()).hexdigest()[:16]
         if have_sha != want_sha:
-            raise ExtractError(f'abstracted initialiser of `{var}` in {spec["name"]} changed '
-                               f'(sha {have_sha}, reviewed {want_sha}): abstraction no longer justified')
+            # edited since it was reviewed: still acceptable if a token scan finds nothing that can
+            # mutate (the abstraction only assumes "reads self, may fail"); otherwise UNDECIDED
+            muts = [t.text for t in T[a:e] if t.kind == 'ident' and t.text in (
+                'drain', 'clear', 'push', 'push_back', 'push_front', 'pop', 'pop_back', 'pop_front', 'remove',
+                'insert', 'take', 'swap', 'truncate', 'retain', 'mut', 'iter_mut', 'get_mut', 'append', 'extend',
+                'replace', 'set', 'split_off', 'entry', 'unsafe')]
+            if muts or re.search(r'[^=!<>]=[^=>]', orig):
+                raise ExtractError(f'abstracted initialiser of `{var}` in {spec["name"]} changed '
+                                   f'(sha {have_sha}, reviewed {want_sha}) and may now mutate ({sorted(set(muts))}): '
+                                   f'read-only abstraction no longer justified')
+            log.append({'step': 'R6', 'note': f'initialiser of {var} edited since review (sha {have_sha}); token scan finds no mutation'})
         if re.search(r'&mut\s+self|self\.\w+\s*=[^=]', orig):
             raise ExtractError(f'abstracted initialiser of {var} mutates self: refused')
         edits.add(T[a].start, T[e].start, ' ' + repl, 'rewrite', 'R6 abstract')
@@ -851,9 +862,18 @@ def extract_fn(repo, spec, features):
     cls = [i for i in closures_in(sf, bo + 1, bc) if alive(T[i])]
     for n_, c in spec['closures'].items():
         if n_ - 1 >= len(cls):
+            if c.get('match'):
+                # annotation tied to a particular closure text: the closure is gone, nothing to annotate
+                log.append({'step': 'note', 'closure_annotation_skipped': n_, 'reason': 'closure not present'})
+                continue
             raise ExtractError(f'lost anchor: closure {n_} of {spec["name"]} (body has {len(cls)})')
         ci = cls[n_ - 1]
         plo, phi, blo, bhi = closure_parts(sf, ci)
+        if c.get('match'):
+            ctext = ' '.join(sf.text[T[ci].start:T[bhi - 1].end].split())
+            if not re.search(c['match'], ctext):
+                log.append({'step': 'note', 'closure_annotation_skipped': n_, 'reason': f'closure text {ctext[:60]!r} does not match'})
+                continue
         ptext = sf.text[T[plo].start:T[phi].start] if plo < phi else ''
         pre_body = ''
         if c['param']:
